@@ -85,7 +85,7 @@ Ltac fw_facts Hf := fuel_split; repeat match goal with
 Lemma handle_plain_fw fuel e s s' o : handle fuel e s = (Ok tt, s', o) -> fuel_ok o = true -> plain s e = true -> Fw s s'.
 Proof.
   intros H Hf Hpl. unfold plain, start_accepted, success_reply, fail_reply, req_pending, rcall_active, is_none, is_some in Hpl.
-  unfold handle in H. cbn zeta in H. destruct e; unfold api_stop, api_commit, flush_pend, handle_commit_error in H; mi H.
+  unfold handle in H. cbn zeta in H. destruct e; unfold api_stop, api_commit, api_shutdown, flush_pend, handle_commit_error in H; mi H.
   all: try (cbn in Hpl; rewrite ?andb_false_r in Hpl; discriminate Hpl).
   all: split_state_if; fw_facts Hf; fw_chain.
 Qed.
